@@ -49,6 +49,10 @@ META = dict(
 NSHARDS = 16
 
 
+class ImplTimeout(Exception):
+    """the implementation-side driver did not finish (an interface call spins for ever)"""
+
+
 def _sh(ctx, argv, stdin=None, stdout=None, stderr=None, env=None):
     e = ctx.goenv()
     e.setdefault("GOMEMLIMIT", "3GiB")
@@ -58,7 +62,7 @@ def _sh(ctx, argv, stdin=None, stdout=None, stderr=None, env=None):
     fout = open(stdout, "wb") if stdout else subprocess.DEVNULL
     ferr = open(stderr, "wb") if stderr else subprocess.PIPE
     try:
-        p = subprocess.run(argv, stdin=fin, stdout=fout, stderr=ferr, env=e, timeout=3000)
+        p = subprocess.run(argv, stdin=fin, stdout=fout, stderr=ferr, env=e, timeout=ctx.pick(400, 2400))
         return p.returncode, (p.stderr or b"").decode("utf-8", "replace") if not stderr else ""
     except subprocess.TimeoutExpired:
         return 124, "timeout"
@@ -77,6 +81,8 @@ def _pair(ctx, go, model, ops, tag, stats=None, nohash=False):
         if nohash:
             argv += ["-nohash"]
     rc, err = _sh(ctx, argv, stdin=ops, stdout=a)
+    if rc == 124:
+        raise ImplTimeout(ops)
     if rc != 0:
         raise RuntimeError("implementation driver failed rc=%d %s" % (rc, err[-500:]))
     rc, err = _sh(ctx, [model], stdin=ops, stdout=b)
@@ -128,7 +134,11 @@ def _shard(ctx, go, model, kind, n, shard):
     if rc != 0:
         raise RuntimeError("generator failed: rc=%d" % rc)
     stats = ctx.path(tag + ".stats")
-    a, b = _pair(ctx, go, model, ops, tag, stats=stats, nohash=(kind != "rand"))
+    try:
+        a, b = _pair(ctx, go, model, ops, tag, stats=stats, nohash=(kind != "rand"))
+    except ImplTimeout:
+        return dict(kind=kind, shard=shard, ops=ops, diff="timeout", gstat="",
+                    stats=dict(histories=0, nontrivial=0, lines=0, histogram={}))
     d = _first_diff(a, b)
     res = dict(kind=kind, shard=shard, ops=ops, impl=a, model=b, diff=d, stats=json.load(open(stats)),
                gstat=open(gstat).read())
@@ -189,7 +199,7 @@ def _judge(ctx, go, model, hist, what):
     ann = ["impl:  " + impl_line[:600], "model: " + model_line[:600]] + ["ref: " + f[:600] for f in fails[:3]]
     ctx.violation("impl-vs-spec" if concrete else "impl-vs-model",
                   "%s: implementation and model differ on result line %s of the minimised history (%d lines)\n%s"
-                  % (what, d, len(small), why), lines=cut, annotations=ann, concrete=concrete)
+                  % (what, d, len(small), why), lines=probe, annotations=ann, concrete=concrete)
     return concrete
 
 
@@ -198,6 +208,9 @@ def _oracle(ctx, go, n):
     def one(shard):
         out = ctx.path("oracle%02d.out" % shard)
         rc, err = _sh(ctx, [go, "oracle", str(n), str(shard), str(NSHARDS)], stdout=out)
+        if rc == 124:
+            return ["FAIL value line=0 op=? want=termination got=oracle shard %d did not finish (an interface call never "
+                    "returns)" % shard]
         if rc != 0:
             raise RuntimeError("oracle failed: " + err[-300:])
         return [l.rstrip("\n") for l in open(out)]
@@ -318,7 +331,13 @@ def run(ctx):
                     gen_counts[k] = gen_counts.get(k, 0) + int(v)
             elif line.startswith("exhstat ") and r["shard"] == 0:
                 ctx.extra["exhaustive_space"] = dict(t.split("=") for t in line.split()[1:])
-        if r["diff"] is not None and judged < 3:
+        if r["diff"] == "timeout":
+            ctx.violation("impl-vs-model", "%s shard %d: the implementation-side driver did not finish within the time "
+                          "limit (an interface call that never returns and keeps a core busy); the op file is the "
+                          "generator output `fs %s %d %d %d` with VERIF_SEED=%d"
+                          % (r["kind"], r["shard"], "gen" if r["kind"] == "rand" else "genx",
+                             n_rand if r["kind"] == "rand" else n_exh, r["shard"], NSHARDS, ctx.seed), concrete=False)
+        elif r["diff"] is not None and judged < 3:
             judged += 1
             concrete_found |= _judge(ctx, go, model, _history_at(r["ops"], r["diff"]),
                                      "%s shard %d" % (r["kind"], r["shard"]))
